@@ -568,3 +568,31 @@ class ExprTr:
         if isinstance(node, ast.UnaryOp) and isinstance(node.op, ast.Not):
             return f"(negb {self.boolean(node.operand)})"
         self.err(node)
+
+
+class RExprTr:
+    """Fail-closed translator python scalar expr -> Coq expression over R (Reals)."""
+    BIN = {ast.Add: "+", ast.Sub: "-", ast.Mult: "*", ast.Div: "/"}
+    FUN = {"np.log": "ln", "np.exp": "exp", "math.log": "ln", "math.exp": "exp", "np.sqrt": "sqrt"}
+
+    def __init__(self, subst, where=""):
+        self.subst = {k.replace(" ", ""): v for k, v in subst.items()}
+        self.where = where
+
+    def err(self, node, msg="unsupported"):
+        raise TranslateError(f"{self.where}: line {getattr(node, 'lineno', '?')}: {msg}: {ast.unparse(node)}")
+
+    def num(self, node):
+        src = ast.unparse(node).replace(" ", "")
+        if src in self.subst:
+            return self.subst[src]
+        if isinstance(node, ast.Constant) and isinstance(node.value, (int, float)) and not isinstance(node.value, bool):
+            fr = Fraction(node.value)
+            return f"({fr.numerator}/{fr.denominator})" if fr.denominator != 1 else f"({fr.numerator})"
+        if isinstance(node, ast.BinOp) and type(node.op) in self.BIN:
+            return f"({self.num(node.left)} {self.BIN[type(node.op)]} {self.num(node.right)})"
+        if isinstance(node, ast.UnaryOp) and isinstance(node.op, ast.USub):
+            return f"(- {self.num(node.operand)})"
+        if isinstance(node, ast.Call) and ast.unparse(node.func) in self.FUN and len(node.args) == 1 and not node.keywords:
+            return f"({self.FUN[ast.unparse(node.func)]} {self.num(node.args[0])})"
+        self.err(node)
